@@ -27,6 +27,9 @@ POLICIES = ['raise', 'drop', 'ignore', 'clear', 'custom4-keep', 'custom4-drop', 
 MIXED = {
     'string-mixed': {'f1': {'type': 'string'}, 'f2': {'type': 'string', 'constraints': {'maxLength': 3}},
                      'f.': {'type': 'string', 'constraints': {'minLength': 5}}, 'values': ['abcd', 'ab', 'abcdef', None]},
+    # the same null / empty cell is fine for an optional field and an error for a required one
+    'required-mixed': {'f1': {'type': 'string'}, 'f2': {'type': 'string', 'constraints': {'required': True}},
+                       'f.': {'type': 'integer', 'constraints': {'required': True}}, 'values': ['7', None, '', 'ab']},
     'number-mixed': {'f1': {'type': 'number'}, 'f2': {'type': 'number', 'decimalChar': ','},
                      'f.': {'type': 'number', 'constraints': {'maximum': 2}}, 'values': ['1.5', '1,5', '3', None]},
 }
@@ -300,6 +303,8 @@ def cases(tier):
             for pol in ('raise', 'drop', 'clear', 'custom5-keep'):
                 out.append({'via': 'set_type', 'type': tname, 'policy': pol, 'pattern': pat, 'name': ['f1', True]})
                 out.append({'via': 'set_type', 'type': tname, 'policy': pol, 'pattern': pat, 'name': ['f.', False]})
+                # alternation: selects f2 only (a name that merely starts with an alternative is not selected)
+                out.append({'via': 'set_type', 'type': tname, 'policy': pol, 'pattern': pat, 'name': ['f|f2', True]})
                 out.append({'via': 'set_type', 'type': tname, 'policy': pol, 'pattern': pat, 'name': ['f.', True], 'resources': None})
                 out.append({'via': 'set_type', 'type': tname, 'policy': pol, 'pattern': pat, 'name': ['f.', True], 'resources': 't'})
                 out.append({'via': 'set_type', 'type': tname, 'policy': pol, 'pattern': pat, 'name': ['f.', True], 'transform': True})
